@@ -4,7 +4,10 @@ continue, swallowed exception).  Exhaustive up to a nesting depth; three functio
 import itertools
 
 
-def stmts(depth, in_loop, kind):
+def stmts(depth, in_loop, kind, plan=None):
+    """plan (optional): dict depth -> "with" | "ctl": restricts which compound statements may appear at that nesting depth
+    (used for the depth-3 'sandwich' slice: with > control statement > with > leaf)"""
+    want = (plan or {}).get(depth)
     susp = {"coro": "await ay('p')", "gen": "yield 'p'", "agen": "yield 'p'"}[kind]
     yield ([susp], 0, 0)
     if kind == "agen":
@@ -19,33 +22,44 @@ def stmts(depth, in_loop, kind):
     if depth <= 0:
         return
     h = {"coro": "await ay('h')", "gen": "yield 'h'", "agen": "yield 'h'"}[kind]
-    for body in bodies(depth - 1, in_loop, kind):
+    for body in (bodies(depth - 1, in_loop, kind, plan) if want != "ctl_loop_only" else ()):
         bl, bc, bm = body
         ind = ["    " + l for l in bl]
-        if kind in ("coro", "agen"):
+        if want == "ctl":
+            pass
+        elif kind in ("coro", "agen") and plan:
+            yield (["async with M(@M@) as v@M@:"] + ind, bc, bm + 1)      # slim set of with forms inside a planned slice
+        elif kind in ("coro", "agen"):
             yield (["async with M(@M@) as v@M@:"] + ind, bc, bm + 1)
             yield (["async with MS(@M@) as v@M@:"] + ind, bc, bm + 1)   # swallowing
             yield (["async with M(@M@) as v@M@, M(@M2@) as v@M2@:"] + ind, bc, bm + 2)
             yield (["async with M(@M@):"] + ind, bc, bm + 1)             # no `as` target
-        yield (["with S(@M@) as v@M@:"] + ind, bc, bm + 1)
-        if kind == "gen":
+        if want != "ctl":
+            yield (["with S(@M@) as v@M@:"] + ind, bc, bm + 1)
+        if kind == "gen" and want != "ctl" and not plan:
             yield (["with SS(@M@) as v@M@:"] + ind, bc, bm + 1)
             yield (["with S(@M@) as v@M@, S(@M2@) as v@M2@:"] + ind, bc, bm + 2)
             yield (["with S(@M@):"] + ind, bc, bm + 1)
+        if want == "with":
+            continue
         yield (["try:"] + ind + ["except KeyError:", "    " + h], bc, bm)
         yield (["try:"] + ind + ["except KeyError:", "    raise"], bc, bm)        # every handler leaves the block
         yield (["try:"] + ind + ["finally:", "    " + h.replace("'h'", "'f'")], bc, bm)
         yield (["if C[@C@]:"] + ind, bc + 1, bm)
         yield (["if C[@C@]:"] + ind + ["else:", "    " + h.replace("'h'", "'e'")], bc + 1, bm)
-    for body in bodies(depth - 1, True, kind):
+        if bm and not plan:
+            # a with statement in a COLD region: inside a finally clause / an except handler
+            yield (["try:", "    " + h.replace("'h'", "'t'"), "finally:"] + ind, bc, bm)
+            yield (["try:", "    raise KeyError", "except KeyError:"] + ind, bc, bm)
+    for body in (bodies(depth - 1, True, kind, plan) if want != "with" else ()):
         bl, bc, bm = body
         ind = ["    " + l for l in bl]
         yield (["for _i in range(2):"] + ind, bc, bm)
         yield (["while tick():"] + ind, bc, bm)
 
 
-def bodies(depth, in_loop, kind):
-    one = list(stmts(depth, in_loop, kind))
+def bodies(depth, in_loop, kind, plan=None):
+    one = list(stmts(depth, in_loop, kind, plan))
     for s in one:
         yield s
     q = {"coro": "await ay('q')", "gen": "yield 'q'", "agen": "yield 'q'"}[kind]
@@ -71,11 +85,29 @@ def number(lines):
     return out, m, c
 
 
-def programs(maxd=2, kinds=("coro", "gen", "agen")):
+SANDWICH = {3: "with", 2: "ctl", 1: "with"}      # with > if/try/loop > with > leaf (+ trailing simple statements at each level)
+
+
+WIDE = ['"""docstring: takes constant slot 0, so None is no longer among the first 256 constants"""'] + [f"_p = {1000 + i}" for i in range(300)]
+
+
+def programs(maxd=2, kinds=("coro", "gen", "agen"), sandwich=True):
     for kind in kinds:
         seen = set()
         head = {"coro": "async def prog():", "gen": "def prog():", "agen": "async def prog():"}[kind]
-        for bl, bc, bm in bodies(maxd, False, kind):
+        if sandwich and maxd == 2:
+            # WIDE variants: the depth-1 programs again, behind 300 distinct constants (LOAD_CONST None needs EXTENDED_ARG, jumps
+            # grow): layout-sensitive analyses must not care
+            for bl, bc, bm in itertools.chain(bodies(1, False, kind), (b for b in bodies(2, False, kind) if b[0][0] == "try:")):
+                if bm == 0:
+                    continue
+                lines, m, c = number(bl)
+                if kind in ("agen", "gen") and not any("yield" in l for l in lines):
+                    lines = lines + ["yield 'z'"]
+                yield kind, head + "\n" + "\n".join("    " + l for l in WIDE + lines) + "\n", m, c
+        family = itertools.chain(bodies(maxd, False, kind),
+                                 (b for b in bodies(3, False, kind, SANDWICH) if b[2] >= 2) if (sandwich and maxd == 2) else ())
+        for bl, bc, bm in family:
             if bm == 0:
                 continue
             lines, m, c = number(bl)
